@@ -22,6 +22,9 @@ mod common;
 mod core;
 mod dht;
 
+#[cfg(mainline_verif)]
+pub mod verif;
+
 #[cfg(feature = "async")]
 pub use dht::async_dht;
 
